@@ -169,7 +169,24 @@ fn main() {
             (RunResult::Ok(a, _), RunResult::Ok(b, _)) => {
                 both_ok += 1;
                 if !same_outcome_bits(a, b) {
-                    let sig = if b.priority_solved() < a.priority_solved() && analysis_fails_at_some_level(&sys) {
+                    // the known finding F10 says: an analysis error at a later level makes solve_analysis
+                    // return an EARLIER level's result.  That result must then be exactly what the plain
+                    // solve of the requests up to that level returns; anything else is a new violation.
+                    let earlier_is_right = || -> bool {
+                        let sub: Vec<ConstraintRequest> = sys.reqs.iter().filter(|r| r.priority() <= b.priority_solved()).copied().collect();
+                        // positions of the kept requests in the caller's list
+                        let pos: Vec<usize> = sys.reqs.iter().enumerate().filter(|(_, r)| r.priority() <= b.priority_solved()).map(|(k, _)| k).collect();
+                        match solve(&sub, sys.guesses.clone(), sys.config()) {
+                            Ok(p) => {
+                                p.final_values().iter().zip(b.final_values()).all(|(x, y)| x.to_bits() == y.to_bits())
+                                    && p.iterations() == b.iterations()
+                                    && p.priority_solved() == b.priority_solved()
+                                    && p.unsatisfied().iter().map(|k| pos[*k]).collect::<Vec<_>>() == b.unsatisfied()
+                            }
+                            Err(_) => false,
+                        }
+                    };
+                    let sig = if b.priority_solved() < a.priority_solved() && analysis_fails_at_some_level(&sys) && earlier_is_right() {
                         "analysis-error-at-non-first-level"
                     } else {
                         "analysis-changes-result"
@@ -250,6 +267,7 @@ fn main() {
             Config::default().with_max_iterations(2),
             Config::default().with_convergence_tolerance(1e-13).with_max_iterations(3),
             Config::default().with_convergence_tolerance(1e-2),
+            Config::default().with_step_tolerance(1e-3),
         ] {
             config_runs += 1;
             let wc = show(&cs.solve_with_config(cfg));
